@@ -1,3 +1,4 @@
+use rand::{Rng, rngs::StdRng};
 use std::collections::HashMap;
 use std::fs::File;
 use std::io::{BufWriter, Write};
@@ -123,4 +124,51 @@ pub fn from_limbs(l: &[u64]) -> u64 {
         v |= x << (12 * i);
     }
     v
+}
+
+/// Structured data: every symbol is, at random, random bytes, all zero, one constant byte, a 2/4/8-byte repeating
+/// pattern, or a copy of an earlier symbol ("all data pairs" includes the values a value-dependent short-cut treats
+/// specially; random bytes practically never hit them).
+pub fn structured(rng: &mut StdRng, k: usize, t: usize) -> Vec<u8> {
+    let mut d = vec![0u8; k * t];
+    for i in 0..k {
+        match rng.random_range(0..7) {
+            0 | 1 => (0..t).for_each(|j| d[i * t + j] = rng.random()),
+            2 => {}
+            3 => {
+                let c: u8 = *[0x20u8, 0xff, 0x01, 0x80].get(rng.random_range(0..4)).unwrap();
+                (0..t).for_each(|j| d[i * t + j] = c)
+            }
+            4 | 5 => {
+                let p = [2usize, 4, 8][rng.random_range(0..3)];
+                let pat: Vec<u8> = (0..p).map(|_| rng.random()).collect();
+                (0..t).for_each(|j| d[i * t + j] = pat[j % p])
+            }
+            _ => {
+                if i > 0 {
+                    let s = rng.random_range(0..i);
+                    (0..t).for_each(|j| d[i * t + j] = d[s * t + j])
+                }
+            }
+        }
+    }
+    d
+}
+
+
+/// Object bytes made of runs (random length 1..40) of random bytes, zeros or one constant byte.
+pub fn runs_data(rng: &mut StdRng, f: usize) -> Vec<u8> {
+    let mut d = Vec::with_capacity(f);
+    while d.len() < f {
+        let n = rng.random_range(1..=40usize).min(f - d.len());
+        match rng.random_range(0..4) {
+            0 | 1 => (0..n).for_each(|_| d.push(rng.random())),
+            2 => d.extend(std::iter::repeat(0u8).take(n)),
+            _ => {
+                let c: u8 = rng.random();
+                d.extend(std::iter::repeat(c).take(n))
+            }
+        }
+    }
+    d
 }
